@@ -549,9 +549,118 @@ func mwWorker(w *pool.W, arg json.RawMessage) {
 	w.Emit(rec{Kind: "count", N: n, Outcome: oc})
 }
 
+// ---- groups: middlewares inherited by sibling groups ------------------------------------------
+
+// groupScript: a parent with `parents` middlewares, two sibling groups with ga / gb own middlewares,
+// routes registered after both groups were configured (order = which group is configured first).
+func groupScript(parents, ga, gb int, apiFirst bool) string {
+	var sb strings.Builder
+	sb.WriteString("$server = new Net\\Http\\Server('127.0.0.1', 0);\n")
+	for i := 0; i < parents; i++ {
+		fmt.Fprintf(&sb, "$server->middleware(function($r, $w, $next) { echo \"p%d>\"; $next($r, $w); });\n", i)
+	}
+	mk := func(v, prefix, tag string, n int) {
+		fmt.Fprintf(&sb, "$%s = $server->group('%s');\n", v, prefix)
+		for i := 0; i < n; i++ {
+			fmt.Fprintf(&sb, "$%s->middleware(function($r, $w, $next) { echo \"%s%d>\"; $next($r, $w); });\n", v, tag, i)
+		}
+	}
+	if apiFirst {
+		mk("ga", "/a", "A", ga)
+		mk("gb", "/b", "B", gb)
+	} else {
+		mk("gb", "/b", "B", gb)
+		mk("ga", "/a", "A", ga)
+	}
+	sb.WriteString("$ga->get('/x', function($r, $w) { echo \"ha\"; $w->write(\"a\"); });\n")
+	sb.WriteString("$gb->get('/x', function($r, $w) { echo \"hb\"; $w->write(\"b\"); });\n")
+	sb.WriteString("$server->get('/x', function($r, $w) { echo \"hr\"; $w->write(\"r\"); });\n")
+	return sb.String()
+}
+
+func groupExpect(parents, ga, gb int) map[string]string {
+	pre := ""
+	for i := 0; i < parents; i++ {
+		pre += fmt.Sprintf("p%d>", i)
+	}
+	a, b := pre, pre
+	for i := 0; i < ga; i++ {
+		a += fmt.Sprintf("A%d>", i)
+	}
+	for i := 0; i < gb; i++ {
+		b += fmt.Sprintf("B%d>", i)
+	}
+	return map[string]string{"/a/x": a + "ha", "/b/x": b + "hb", "/x": pre + "hr"}
+}
+
+type groupShard struct {
+	Parents []int `json:"parents"`
+}
+
+func groupWorker(w *pool.W, arg json.RawMessage) {
+	var sh groupShard
+	json.Unmarshal(arg, &sh)
+	var n int64
+	outcomes := map[string]bool{}
+	for _, parents := range sh.Parents {
+		for ga := 0; ga <= 2; ga++ {
+			for gb := 0; gb <= 2; gb++ {
+				for _, apiFirst := range []bool{true, false} {
+					id := fmt.Sprint("group ", parents, ga, gb, apiFirst)
+					if !w.Item(id) {
+						continue
+					}
+					src := groupScript(parents, ga, gb, apiFirst)
+					res, s := runner.RunKeep(src, runner.Opts{Setup: func(vm data.VM) { ohttp.Load(vm) }})
+					got := map[string]string{}
+					errs := ""
+					if res.Kind != "ok" {
+						errs = "define:" + res.Kind + ":" + res.Msg + res.PanicKey
+					} else if cv, _ := s.Var("server").(*data.ClassValue); cv == nil {
+						errs = "server object not found"
+					} else if mux, _ := cv.GetSource().(*nh.ServeMux); mux == nil {
+						errs = "mux not reachable"
+					} else {
+						for _, path := range []string{"/a/x", "/b/x", "/x"} {
+							rec := httptest.NewRecorder()
+							g := runner.Guard(func() { mux.ServeHTTP(rec, httptest.NewRequest("GET", path, nil)) })
+							got[path] = s.Out()
+							if g.Kind != "ok" {
+								errs += path + ":" + g.Kind + ":" + g.Msg + g.PanicKey + " "
+							}
+						}
+					}
+					s.Close()
+					n++
+					exp := groupExpect(parents, ga, gb)
+					bad := errs != ""
+					for k, v := range exp {
+						outcomes[got[k]] = true
+						if got[k] != v {
+							bad = true
+						}
+					}
+					if bad {
+						key := fmt.Sprintf("group-middlewares:own=%d/%d", ga, gb)
+						if errs != "" {
+							key = "group-error"
+						}
+						w.Emit(rec{Kind: "fail", Key: key, Clause: "middleware-order", Size: parents*100 + ga*10 + gb, Case: map[string]any{"kind": "group", "parents": parents, "ga": ga, "gb": gb, "api_first": apiFirst, "script": src}, Detail: fmt.Sprintf("parent middlewares=%d, group /a own=%d, group /b own=%d\nexpected %v\nobserved %v %s", parents, ga, gb, exp, got, errs)})
+					}
+				}
+			}
+		}
+	}
+	var oc []string
+	for k := range outcomes {
+		oc = append(oc, k)
+	}
+	w.Emit(rec{Kind: "count", N: n * 3, Outcome: oc})
+}
+
 func main() {
 	if pool.IsWorker() {
-		pool.Serve(map[string]pool.Handler{"seq": seqWorker, "mw": mwWorker})
+		pool.Serve(map[string]pool.Handler{"seq": seqWorker, "mw": mwWorker, "group": groupWorker})
 	}
 	c := ev.New("C13")
 	defer runner.Cleanup()
@@ -626,6 +735,10 @@ func main() {
 			j = len(stacks)
 		}
 		shards = append(shards, pool.Shard{Kind: "mw", Arg: mwShard{Stacks: stacks[i:j]}})
+	}
+	// sibling groups inheriting 0..12 parent middlewares (slice capacities differ with the count)
+	for p := 0; p <= 12; p++ {
+		shards = append(shards, pool.Shard{Kind: "group", Arg: groupShard{Parents: []int{p}}})
 	}
 	var total int64
 	outcomes := map[string]bool{}
